@@ -25,6 +25,14 @@ def run(res, only=None):
     c = os.path.join(wd, "quat.out")
     res.add_tlc(core.run_tlc("MC_C04", res.tier, c, workers=8, extra_constants={"Seed": res.seed % 97}))
     core.replay_bin(res, "lin", c, allc, env_extra={"HX_PROP": "C07"}, tag="quat")
+    # Debug / Display text and every access path of the SIMD-backed vectors, quaternions and matrices equal the one specification in every
+    # build (the register machines of C17 and C06): character-identical output across backends follows
+    d = os.path.join(wd, "access.out")
+    res.add_tlc(core.run_tlc("MC_C17", res.tier, d, workers=4))
+    core.replay_bin(res, "tok", d, allc, env_extra={"HX_PROP": "C07"}, tag="access", expect_ops=["acc:read:display", "acc:read:display_prec", "acc:read:debug"])
+    e = os.path.join(wd, "layout.out")
+    res.add_tlc(core.run_tlc("MC_C06", res.tier, e, workers=4, extra_constants={"MaxHist": 2}))
+    core.replay_bin(res, "tok", e, allc, env_extra={"HX_PROP": "C07"}, tag="layout", expect_ops=["mat:read:display", "mat:read:debug"])
     # (2) random (off-lattice) chains of the SIMD-backed types: TLC-generated programs executed in every build with the same
     #     seeds; traces are compared by TLC: bit for bit across CPU features, within re-association slack SIMD vs scalar
     pr = os.path.join(wd, "chains.out")
